@@ -122,7 +122,7 @@ fn view(a: &Al<{n}>) -> &Un{ga} {{ unsafe {{ &*(a.0.as_ptr() as *const Un{ga}) }
         for alt in (False, True):
             if alt and (pat == 'sym' or n > pretty_max or n == 0):
                 continue
-            h = Harness(f'h_debug_{tag}_{"pretty" if alt else "compact"}', unwind=(12 * n + 40) if alt else (6 * n + 30), covers=['reached'], stubs=[STUB] if alt else [])
+            h = Harness(f'h_debug_{tag}_{"pretty" if alt else "compact"}', unwind=(12 * n + 40) if alt else ((6 * n + 30) if n else 8), covers=['reached'], stubs=[STUB] if alt else [])
             body += h.attrs() + f'''pub fn {h.name}() {{
     let a = Al::<{n}>({init});
     let (b1, r1) = render(view(&a), {str(alt).lower()});
